@@ -184,6 +184,29 @@ def overflow_sites(ctx, facts=None):
                 yield b, bb, t["msg_ops"][0], t["msg_ops"][1], t["msg_ops"][2]
 
 
+def _const_val(b, op, depth=0):
+    """value of an operand that is a constant or constant arithmetic (`R + 1` is a checked Add of two constants in MIR), else None"""
+    k = b.op_const(op)
+    if k is not None or depth > 4 or op["k"] not in ("copy", "move"):
+        return k
+    d = b.unique_def(op["place"]["local"])
+    hops = 0
+    while d is not None and d[1] == "assign" and d[2]["rv"]["k"] == "use" and d[2]["rv"]["op"]["k"] in ("copy", "move") and hops < 4:
+        d = b.unique_def(d[2]["rv"]["op"]["place"]["local"])
+        hops += 1
+    if d is not None and d[1] == "assign" and d[2]["rv"]["k"] == "binop":
+        rv = d[2]["rv"]
+        x, y = _const_val(b, rv["a"], depth + 1), _const_val(b, rv["b"], depth + 1)
+        if x is not None and y is not None:
+            if rv["op"].startswith("Add"):
+                return x + y
+            if rv["op"].startswith("Mul"):
+                return x * y
+            if rv["op"].startswith("Sub") and x >= y:
+                return x - y
+    return None
+
+
 def _sub_cannot_underflow(ctx, b, bb, a, c_):
     """reason why `a - c_` at the overflow check in bb cannot underflow, or None"""
     da, dc = b.source_def(a), b.source_def(c_)
@@ -207,7 +230,7 @@ def _sub_cannot_underflow(ctx, b, bb, a, c_):
             hops += 1
         if d is not None and d[1] == "assign" and d[2]["rv"]["k"] == "binop" and d[2]["rv"]["op"].startswith("Add"):
             for x in (d[2]["rv"]["a"], d[2]["rv"]["b"]):
-                k1 = b.op_const(x)
+                k1 = _const_val(b, x)
                 if k1 is not None and k1 >= k2:
                     return "(x + %d) - %d" % (k1, k2)
     # guarded: the block is dominated by the true edge of `a >= c` / `a > c` (or the false edge of `a < c` / `a <= c`)
